@@ -44,3 +44,24 @@ Example C08_nonvacuous :
   feature_ok (mkC08f true (of_list [VNum 2; VNum 5; VPInf]) [VNum 1; VNum 9] false (VStr "__NAN__")) = true /\
   feature_ok (mkC08f true (of_list [VNum 2; VNum 5]) [VNum 1; VNum 9] false (VStr "__NAN__")) = false.
 Proof. vm_compute. split; reflexivity. Qed.
+
+(* on the models, the three base fits never end in an internal error, whatever the sample, the
+   ranking (duplicated / never-observed values included) and min_freq *)
+From AC.Model Require Import Categorical.
+From AC.Proofs Require Import CategoricalOrderProofs QuantFitProofs.
+Theorem C08_ordinal_fit_never_fails_internally : forall mf nan_cnt order d,
+  ordinal_fit mf nan_cnt order d <> InternalErr.
+Proof. exact ordinal_fit_never_internal. Qed.
+Print Assumptions C08_ordinal_fit_never_fails_internally.
+
+Theorem C08_categorical_fit_never_fails_internally : forall mf nan_cnt order d,
+  categorical_fit mf nan_cnt order d <> InternalErr.
+Proof. exact categorical_fit_never_internal. Qed.
+Print Assumptions C08_categorical_fit_never_fails_internally.
+
+Theorem C08_quantitative_fit_wf_or_clean_failure : forall mf nan_cnt d,
+  (exists g, quantitative_fit true mf nan_cnt d = QFit g /\ WF g)
+  \/ quantitative_fit true mf nan_cnt d = QFail QFloat
+  \/ quantitative_fit true mf nan_cnt d = QFail QIndex.
+Proof. exact quantitative_fit_ok. Qed.
+Print Assumptions C08_quantitative_fit_wf_or_clean_failure.
